@@ -19,3 +19,18 @@ def Prog.runOn {α : Type} : Prog α → List VSign → Outcome α × List VSign
     | .ok (b', r) => (k r).runOn b'
 
 end Flipdot
+
+namespace Flipdot
+
+/-- Run a controller program against a single virtual sign. -/
+def Prog.runOn1 {α : Type} : Prog α → VSign → Outcome α × VSign
+  | .done a, s => (.ok a, s)
+  | .fail, s => (.proto, s)
+  | .panic p, s => (.panic p, s)
+  | .outOfFuel, s => (.outOfFuel, s)
+  | .send m k, s =>
+    match vstep s m with
+    | .error p => (.panic p, s)
+    | .ok (s', r) => (k r).runOn1 s'
+
+end Flipdot
